@@ -363,10 +363,12 @@ func ptySignal(out *scenOut, mode, sig, phase string) {
 	case err := <-r.exited:
 		if err != nil {
 			out.fail(finding{Property: "C18", Class: "new", What: "child did not exit cleanly", Input: desc, Observed: err.Error()})
+			out.fail(finding{Property: "C04", Class: "new", What: "SIGINT/SIGTERM did not make Run return (the process died of the signal: no handler was listening any more)", Input: desc, Observed: err.Error()})
 			return
 		}
 	case <-time.After(5 * time.Second):
 		out.fail(finding{Property: "C18", Class: "new", What: "the program did not end after the signal", Input: desc, Observed: strings.Join(r.logLines(), ";")})
+		out.fail(finding{Property: "C04", Class: "new", What: "Run does not return after SIGINT/SIGTERM", Input: desc, Observed: strings.Join(r.logLines(), ";")})
 		return
 	}
 	want := "interrupted"
